@@ -73,6 +73,7 @@ def declarations(quick):
     sizes = (ABSENT, 8, 64) if quick else (ABSENT, 8, 16, 24, 32, 64)
     for kind in KINDS:
         for size in sizes:
+            if quick and kind == 'Optional' and size is not ABSENT: continue     # Required/Optional only matters for None and ''
             for uns in (ABSENT, False, True):
                 for mn in (None, -1, 0, 1) if quick else (None, -5, -1, 0, 1, 5):
                     for mx in (None, -1, 0, 1, 5) if quick else (None, -5, -1, 0, 1, 5, 100):
@@ -99,6 +100,7 @@ def declarations(quick):
     # --- Decimal
     for kind in KINDS:
         for args in ((), (5, 1), (3, 3), (10, 4)):
+            if quick and kind == 'Optional' and args: continue
             for mn in (None, -1, 0, 1, Decimal('0.5'), '0.5', Decimal(0)):
                 for mx in (None, -1, 0, 1, 5, Decimal('0.5'), Decimal('0.0')):
                     if quick and args in ((3, 3), (10, 4)) and (mn not in (None, 0) or mx not in (None, 0, 1)): continue
@@ -444,7 +446,9 @@ def run(ctx):
     for d in decls:
         k = enc(d)
         if k not in seen: seen.add(k); items.append((k, ctx.quick))
-    for dumped in ctx.pmap(run_declaration, ctx.shuffled(items), chunksize=4):
+    # quick tier: 15 s of CPU in total; a small pool is as fast as a big one on an idle machine and much
+    # faster on a loaded one (16 forked workers were measured 4x slower than 1 under heavy contention)
+    for dumped in ctx.pmap(run_declaration, ctx.shuffled(items), chunksize=4, workers=min(ctx.nworkers, 4) if ctx.quick else None):
         core.absorb(ctx, dumped)
     c = ctx.counters
     ctx.guard('declarations mapped', c.get('declarations_mapped', 0), 500)
